@@ -165,4 +165,16 @@ theorem C14_wiring :
     Sso.Generated.skel_cfg_SetUpstreamConfigs =
       ["if{", "call:ReadFile", "if{", "call:Errorf", "return", "}", "call:Environ", "call:parseEnvironment", "if{", "}", "call:loadServiceConfigs", "store:uc.upstreamConfigs", "if{", "call:Errorf", "return", "}", "}", "if{", "range{", "if{", "store:svc.TimeoutConfig.Write", "}", "call:len", "call:len", "call:len", "if{", "call:append", "}", "}", "call:len", "if{", "call:Errorf", "return", "}", "}", "return"] := by decide
 
+/-- Tie (T1): configuration decoding is **strict** — the `mapstructure.DecoderConfig` names a decode hook and a result and
+nothing else (no `WeaklyTypedInput`: a boolean-looking environment value is never silently turned into "1"), `LoadConfig`
+composes exactly the duration and comma-list hooks, and `parseEnvironment` splits each `SSO_CONFIG_…` entry at its *first*
+`=` (`SplitN`). -/
+theorem C14_config_decoding_strict :
+    Sso.Generated.proxyDecoderConfig =
+      ["DecodeHook,Result"] ∧
+    Sso.Generated.skel_proxy_LoadConfig =
+      ["call:DefaultProxyConfig", "call:NewConfig", "call:NewSource", "call:Load", "if{", "return", "}", "call:StringToTimeDurationHookFunc", "call:StringToSliceHookFunc", "call:ComposeDecodeHookFunc", "call:NewDecoder", "if{", "return", "}", "call:Map", "call:Decode", "if{", "return", "}", "return"] ∧
+    Sso.Generated.skel_proxy_parseEnvironment =
+      ["call:make", "call:len", "if{", "return", "}", "range{", "call:HasPrefix", "if{", "continue", "}", "call:SplitN", "call:TrimPrefix", "call:ToLower", "store:env[]", "}", "return"] := by decide
+
 end Sso.Config
